@@ -43,7 +43,6 @@ pub struct Trade { pub t: Nanos, pub side: Side, pub price: Price, pub vol: Vol,
 pub struct OrderEntry { order: Order, key: OrderKey }
 
 // ---------------- side (real code, structural contracts) ----------------
-#[derive(Default)]
 pub struct OrderBookSide {
     vol: Vol,
     volumes: BTreeMap<Price, (Vol, OrderCount)>,
@@ -109,6 +108,36 @@ impl OrderBookSide {
         self.volumes.get_mut(&price).unwrap().0 -= vol;
         self.vol -= vol;
     }
+    fn best_vol_and_orders(&self) -> (r: (Vol, OrderCount))
+        ensures r == (if self.lv().dom() =~= Set::empty() { (0u32, 0u32) } else { self.lv()[min_p(self.lv())] }),
+    {
+        proof { lemma_min_p_unique(self.lv()); }
+        match self.volumes.first_key_value() {
+            Some((_, v)) => *v,
+            None => (0, 0),
+        }
+    }
+    fn best_vol(&self) -> (r: Vol)
+        ensures r == (if self.lv().dom() =~= Set::empty() { 0u32 } else { self.lv()[min_p(self.lv())].0 }),
+    {
+        proof { lemma_min_p_unique(self.lv()); }
+        match self.volumes.first_key_value() {
+            Some((_, v)) => v.0,
+            None => 0,
+        }
+    }
+    fn vol(&self) -> (r: Vol) ensures r == self.sv()
+    {
+        self.vol
+    }
+    fn vol_and_orders_at_price(&self, price: Price) -> (r: (Vol, OrderCount))
+        ensures r == (if self.lv().contains_key(price) { self.lv()[price] } else { (0u32, 0u32) })
+    {
+        match self.volumes.get(&price) {
+            Some(x) => *x,
+            None => (0, 0),
+        }
+    }
     fn best_price(&self) -> (r: Price)
         ensures r == (if self.om().dom() =~= Set::empty() { u32::MAX } else { min_k(self.om()).0 }),
     {
@@ -124,6 +153,13 @@ impl OrderBookSide {
         proof { lemma_min_unique(self.om()); }
         self.orders.first_key_value().map(|kv: (&(Price, Nanos), &OrderId)| -> (o: OrderId) ensures o == *kv.1 { let (_, v) = kv; *v })
     }
+}
+spec fn min_p(m: Map<Price, (Vol, OrderCount)>) -> Price { choose|k: Price| is_min_key(m, k) }
+proof fn lemma_min_p_unique(m: Map<Price, (Vol, OrderCount)>)
+    ensures forall|a: Price| is_min_key(m, a) ==> min_p(m) == a,
+{
+    broadcast use axiom_key_le_u32;
+    assert forall|a: Price, b: Price| is_min_key(m, a) && is_min_key(m, b) implies a == b by { assert(key_le(a, b) && key_le(b, a)); }
 }
 spec fn min_k(m: Map<(Price, Nanos), OrderId>) -> (Price, Nanos) { choose|k: (Price, Nanos)| is_min_key(m, k) }
 proof fn lemma_min_unique(m: Map<(Price, Nanos), OrderId>)
@@ -210,10 +246,18 @@ pub enum OrderError {
     PriceError { price: Price, tick_size: Price },
 }
 // ---------------- Bid / Ask wrappers (real code, forwarding contracts) ----------------
-#[derive(Default)]
 pub struct BidSide(OrderBookSide);
-#[derive(Default)]
 pub struct AskSide(OrderBookSide);
+impl Default for OrderBookSide {
+    fn default() -> (r: Self) ensures r.is_empty()
+    { OrderBookSide { vol: Default::default(), volumes: Default::default(), orders: Default::default() } }
+}
+impl Default for BidSide { fn default() -> (r: Self) ensures r.is_empty() { BidSide(Default::default()) } }
+impl Default for AskSide { fn default() -> (r: Self) ensures r.is_empty() { AskSide(Default::default()) } }
+impl OrderBookSide { pub closed spec fn is_empty(&self) -> bool { self.vol == 0 && self.volumes@ == Map::<Price, (Vol, OrderCount)>::empty() && self.orders@ == Map::<(Price, Nanos), OrderId>::empty() } }
+impl BidSide { pub closed spec fn is_empty(&self) -> bool { self.0.is_empty() } }
+impl AskSide { pub closed spec fn is_empty(&self) -> bool { self.0.is_empty() } }
+
 
 impl BidSide {
     fn remove_vol(&mut self, price: Price, vol: Vol)
@@ -265,6 +309,15 @@ impl BidSide {
     }
 }
 impl AskSide {
+    fn best_vol_and_orders(&self) -> (r: (Vol, OrderCount))
+        ensures r == (if self.0.lv().dom() =~= Set::empty() { (0u32, 0u32) } else { self.0.lv()[min_p(self.0.lv())] }),
+    {
+        self.0.best_vol_and_orders()
+    }
+    fn vol(&self) -> (r: Vol) ensures r == self.0.sv()
+    {
+        self.0.vol()
+    }
     fn insert_order(&mut self, key: OrderKey, idx: OrderId, vol: Vol)
         requires
             old(self).0.sv() + vol <= u32::MAX,
@@ -1401,6 +1454,195 @@ impl Book {
 
         proof { assert(self.orders@.update(order_id as int, self.orders@[order_id as int]) =~= self.orders@); }
         self.orders[order_id] = order_entry;
+    }
+}
+
+// the cheapest level of the volume map is the price of the head of the queue
+proof fn lemma_touch_level(os: Seq<OrderEntry>, s: OrderBookSide, sd: Side)
+    requires side_wf(os, s, sd, -1)
+    ensures
+        s.lv().dom() =~= Set::empty() <==> s.om().dom() =~= Set::empty(),
+        !(s.om().dom() =~= Set::empty()) ==> is_min_key(s.lv(), min_k(s.om()).0) && min_p(s.lv()) == min_k(s.om()).0,
+{
+    broadcast use axiom_key_le_u32, axiom_key_le_pair;
+    let n = os.len() as int;
+    lemma_best(os, s, sd, -1);
+    if s.om().dom() =~= Set::empty() {
+        if !(s.lv().dom() =~= Set::empty()) {
+            let p = choose|p: Price| s.lv().dom().contains(p);
+            assert(s.lv().contains_key(p));
+            lemma_cnt_pos(os, n, sd, -1, p);
+            let i = choose|i: int| 0 <= i < n && rs(os, i, sd, -1) && os[i].key.1 == p;
+            assert(s.om().contains_key((os[i].key.1, os[i].key.2)));
+            assert(s.om().dom().contains((os[i].key.1, os[i].key.2)));
+        }
+    } else {
+        let k = min_k(s.om()); let b = s.om()[k] as int;
+        lemma_member(os, n, sd, -1, b);
+        assert(lvl_cnt(os, n, sd, -1, k.0) > 0);
+        assert(s.lv().contains_key(k.0));
+        assert(s.lv().dom().contains(k.0));
+        assert forall|p2: Price| #[trigger] s.lv().contains_key(p2) implies key_le(k.0, p2) by {
+            lemma_cnt_pos(os, n, sd, -1, p2);
+            let i = choose|i: int| 0 <= i < n && rs(os, i, sd, -1) && os[i].key.1 == p2;
+            assert(s.om().contains_key((os[i].key.1, os[i].key.2)));
+            assert(key_le(k, (os[i].key.1, os[i].key.2)));
+        }
+        assert(is_min_key(s.lv(), k.0));
+        lemma_min_p_unique(s.lv());
+    }
+}
+
+impl Book {
+    spec fn touch_ask(os: Seq<OrderEntry>) -> Price { if has_resting(os, Side::Ask, -1) { os[best(os, Side::Ask, -1)].order.price } else { u32::MAX } }
+    spec fn touch_bid(os: Seq<OrderEntry>) -> Price { if has_resting(os, Side::Bid, -1) { os[best(os, Side::Bid, -1)].order.price } else { 0u32 } }
+
+    fn bid_ask(&self) -> (r: (Price, Price))
+        requires self.wfx(-1)
+        ensures r == (Self::touch_bid(self.orders@), Self::touch_ask(self.orders@))          // [C02.touch]
+    {
+        proof { lemma_best(self.orders@, self.ask_side.0, Side::Ask, -1); lemma_best(self.orders@, self.bid_side.0, Side::Bid, -1); }
+        (self.bid_side.best_price(), self.ask_side.best_price())
+    }
+    fn ask_vol(&self) -> (r: Vol)
+        requires self.wfx(-1)
+        ensures r == tot_vol(self.orders@, self.orders@.len() as int, Side::Ask, -1)        // [C02.total]
+    {
+        self.ask_side.vol()
+    }
+    fn ask_best_vol_and_orders(&self) -> (r: (Vol, OrderCount))
+        requires self.wfx(-1)
+        ensures r == (if has_resting(self.orders@, Side::Ask, -1) {                          // [C02.touch_volume]
+                let p = self.orders@[best(self.orders@, Side::Ask, -1)].key.1;
+                (lvl_vol(self.orders@, self.orders@.len() as int, Side::Ask, -1, p) as u32, lvl_cnt(self.orders@, self.orders@.len() as int, Side::Ask, -1, p) as u32)
+            } else { (0u32, 0u32) })
+    {
+        proof { lemma_best(self.orders@, self.ask_side.0, Side::Ask, -1); lemma_touch_level(self.orders@, self.ask_side.0, Side::Ask); }
+        self.ask_side.best_vol_and_orders()
+    }
+}
+
+// ---------------- rebuild on load (C07) ----------------
+spec fn side_wf_n(os: Seq<OrderEntry>, n: int, s: OrderBookSide, sd: Side) -> bool {
+    &&& forall|i: int| 0 <= i < n && rs(os, i, sd, -1) ==> (#[trigger] os[i]).order.vol >= 1
+            && s.om().contains_key((os[i].key.1, os[i].key.2)) && s.om()[(os[i].key.1, os[i].key.2)] == i
+    &&& forall|k: (Price, Nanos)| #[trigger] s.om().contains_key(k) ==> 0 <= s.om()[k] < n && rs(os, s.om()[k] as int, sd, -1) && (os[s.om()[k] as int].key.1, os[s.om()[k] as int].key.2) == k
+    &&& forall|p: u32| #[trigger] s.lv().contains_key(p) <==> lvl_cnt(os, n, sd, -1, p) > 0
+    &&& forall|p: u32| #[trigger] s.lv().contains_key(p) ==> s.lv()[p].0 == lvl_vol(os, n, sd, -1, p) && s.lv()[p].1 == lvl_cnt(os, n, sd, -1, p)
+    &&& s.sv() == tot_vol(os, n, sd, -1)
+}
+// what a saved order list must satisfy (it does, if it was the order list of a wf book): distinct keys, volumes, bounded totals
+spec fn orders_ok(os: Seq<OrderEntry>) -> bool {
+    &&& ids_wf(os) && os.len() <= usize::MAX
+    &&& forall|i: int| 0 <= i < os.len() && (#[trigger] os[i]).order.status == Status::Active ==> os[i].order.vol >= 1
+    &&& forall|i: int, j: int| 0 <= i < j < os.len() && os[i].order.status == Status::Active && os[j].order.status == Status::Active && os[i].key.0 == os[j].key.0
+            ==> (#[trigger] os[i].key.1, os[i].key.2) != (#[trigger] os[j].key.1, os[j].key.2)
+    &&& tot_vol(os, os.len() as int, Side::Ask, -1) <= u32::MAX && tot_vol(os, os.len() as int, Side::Bid, -1) <= u32::MAX
+}
+proof fn lemma_tot_mono(os: Seq<OrderEntry>, n: int, m: int, sd: Side)
+    requires 0 <= n <= m <= os.len()
+    ensures tot_vol(os, n, sd, -1) <= tot_vol(os, m, sd, -1)
+    decreases m - n
+{ if n < m { lemma_tot_mono(os, n, m - 1, sd); lemma_nonneg(os, m - 1, sd, -1, 0); } }
+proof fn lemma_next_insert(os: Seq<OrderEntry>, n: int, s0: OrderBookSide, sd: Side, s1: OrderBookSide)
+    requires
+        side_wf_n(os, n, s0, sd), 0 <= n < os.len(), n <= usize::MAX, rs(os, n, sd, -1), os[n].order.vol >= 1,
+        !s0.om().contains_key((os[n].key.1, os[n].key.2)),
+        s1.om() == s0.om().insert((os[n].key.1, os[n].key.2), n as usize),
+        s1.sv() == s0.sv() + os[n].order.vol, s0.sv() + os[n].order.vol <= u32::MAX,
+        s1.lv() == s0.lv().insert(os[n].key.1, if s0.lv().contains_key(os[n].key.1) { ((s0.lv()[os[n].key.1].0 + os[n].order.vol) as u32, (s0.lv()[os[n].key.1].1 + 1) as u32) } else { (os[n].order.vol, 1u32) }),
+    ensures side_wf_n(os, n + 1, s1, sd)
+{
+    let p0 = os[n].key.1;
+    lemma_nonneg(os, n, sd, -1, p0);
+    if s0.lv().contains_key(p0) { assert(s0.lv()[p0].1 == lvl_cnt(os, n, sd, -1, p0) && s0.lv()[p0].0 == lvl_vol(os, n, sd, -1, p0)); }
+    assert forall|i: int| 0 <= i < n + 1 && rs(os, i, sd, -1) implies (#[trigger] os[i]).order.vol >= 1
+            && s1.om().contains_key((os[i].key.1, os[i].key.2)) && s1.om()[(os[i].key.1, os[i].key.2)] == i by {
+        if i < n { assert(s0.om().contains_key((os[i].key.1, os[i].key.2))); assert((os[i].key.1, os[i].key.2) != (os[n].key.1, os[n].key.2)); }
+    }
+    assert forall|k: (Price, Nanos)| #[trigger] s1.om().contains_key(k) implies 0 <= s1.om()[k] < n + 1 && rs(os, s1.om()[k] as int, sd, -1) && (os[s1.om()[k] as int].key.1, os[s1.om()[k] as int].key.2) == k by {
+        if k != (os[n].key.1, os[n].key.2) { assert(s0.om().contains_key(k)); }
+    }
+    assert forall|p: u32| #[trigger] s1.lv().contains_key(p) <==> lvl_cnt(os, n + 1, sd, -1, p) > 0 by {
+        assert(s0.lv().contains_key(p) <==> lvl_cnt(os, n, sd, -1, p) > 0);
+    }
+    assert forall|p: u32| #[trigger] s1.lv().contains_key(p) implies s1.lv()[p].0 == lvl_vol(os, n + 1, sd, -1, p) && s1.lv()[p].1 == lvl_cnt(os, n + 1, sd, -1, p) by {
+        assert(s0.lv().contains_key(p) ==> s0.lv()[p].0 == lvl_vol(os, n, sd, -1, p) && s0.lv()[p].1 == lvl_cnt(os, n, sd, -1, p));
+        lemma_nonneg(os, n, sd, -1, p);
+        if !s0.lv().contains_key(p) { lemma_cnt0_vol0(os, n, sd, -1, p); }
+        lemma_cnt_le_vol_n(os, n, sd, p);
+    }
+}
+proof fn lemma_cnt_le_vol_n(os: Seq<OrderEntry>, n: int, sd: Side, p: u32)
+    requires 0 <= n <= os.len(), forall|i: int| 0 <= i < n && rs(os, i, sd, -1) ==> (#[trigger] os[i]).order.vol >= 1
+    ensures lvl_cnt(os, n, sd, -1, p) <= lvl_vol(os, n, sd, -1, p)
+    decreases n
+{ if n > 0 { lemma_cnt_le_vol_n(os, n - 1, sd, p); } }
+proof fn lemma_next_skip(os: Seq<OrderEntry>, n: int, s: OrderBookSide, sd: Side)
+    requires side_wf_n(os, n, s, sd), 0 <= n < os.len(), !rs(os, n, sd, -1)
+    ensures side_wf_n(os, n + 1, s, sd)
+{
+    assert forall|p: u32| #[trigger] s.lv().contains_key(p) <==> lvl_cnt(os, n + 1, sd, -1, p) > 0 by { assert(s.lv().contains_key(p) <==> lvl_cnt(os, n, sd, -1, p) > 0); }
+}
+
+pub struct OrderBookState {
+    t: Nanos,
+    tick_size: Price,
+    trade_vol: Vol,
+    orders: Vec<OrderEntry>,
+    trades: Vec<Trade>,
+    trading: bool,
+}
+pub struct OrderBookConversionErrror;
+
+impl Book {
+    fn try_from(state: OrderBookState) -> (res: Result<Self, OrderBookConversionErrror>)
+        requires orders_ok(state.orders@)
+        ensures res matches Ok(b) && b.wfx(-1)
+            && b.orders@ == state.orders@ && b.trades@ == state.trades@ && b.t == state.t && b.tick_size == state.tick_size && b.trade_vol == state.trade_vol && b.trading == state.trading,
+    {
+        let mut bid_side = BidSide::default();
+        let mut ask_side = AskSide::default();
+        let ghost os = state.orders@;
+
+        for OrderEntry { order, key } in it: state.orders.iter()
+            invariant
+                os == state.orders@, orders_ok(os),
+                it.seq().len() == os.len(), forall|j: int| 0 <= j < it.seq().len() ==> *it.seq()[j] == os[j],
+                side_wf_n(os, it.index@ as int, bid_side.0, Side::Bid), side_wf_n(os, it.index@ as int, ask_side.0, Side::Ask),
+        {
+            let ghost n = it.index@ as int;
+            let ghost b0 = bid_side.0; let ghost a0 = ask_side.0;
+            proof {
+                lemma_tot_mono(os, n + 1, os.len() as int, Side::Bid); lemma_tot_mono(os, n + 1, os.len() as int, Side::Ask);
+                lemma_nonneg(os, n, Side::Bid, -1, key.1); lemma_nonneg(os, n, Side::Ask, -1, key.1);
+                lemma_cnt_le_vol_n(os, n, Side::Bid, key.1); lemma_cnt_le_vol_n(os, n, Side::Ask, key.1);
+                // a key already in the index belongs to an earlier active order of the same side: excluded by orders_ok
+                if b0.om().contains_key((key.1, key.2)) && rs(os, n, Side::Bid, -1) { let j = b0.om()[(key.1, key.2)] as int; assert(rs(os, j, Side::Bid, -1) && j < n); }
+                if a0.om().contains_key((key.1, key.2)) && rs(os, n, Side::Ask, -1) { let j = a0.om()[(key.1, key.2)] as int; assert(rs(os, j, Side::Ask, -1) && j < n); }
+            }
+            if order.status == Status::Active {
+                match order.side {
+                    Side::Bid => bid_side.insert_order(*key, order.order_id, order.vol),
+                    Side::Ask => ask_side.insert_order(*key, order.order_id, order.vol),
+                }
+            }
+            proof {
+                if rs(os, n, Side::Bid, -1) { lemma_next_insert(os, n, b0, Side::Bid, bid_side.0); } else { lemma_next_skip(os, n, b0, Side::Bid); }
+                if rs(os, n, Side::Ask, -1) { lemma_next_insert(os, n, a0, Side::Ask, ask_side.0); } else { lemma_next_skip(os, n, a0, Side::Ask); }
+            }
+        }
+
+        Ok(Self {
+            t: state.t,
+            tick_size: state.tick_size,
+            trade_vol: state.trade_vol,
+            ask_side,
+            bid_side,
+            orders: state.orders,
+            trades: state.trades,
+            trading: state.trading,
+        })
     }
 }
 // every resting order has volume >= 1, so counts are bounded by volumes
